@@ -42,10 +42,15 @@ func exportMesh(name string) modeling.Mesh {
 	runs := zz.Choose(name+".runs", 3)
 	if runs > 0 {
 		mats := make([]modeling.MeshMaterial, runs, runs+spare)
+		shared := &modeling.Material{Name: name + "-shared"}
+		same := zz.Bool(name + ".sameMaterial") // adjacent runs of one material (as Append / repeat.Mesh produce)
 		for r := range mats {
 			mats[r] = modeling.MeshMaterial{
 				PrimitiveCount: zz.Choose(fmt.Sprintf("%s.run%d", name, r), zz.Bound("P")+2),
 				Material:       &modeling.Material{Name: fmt.Sprintf("%s-mat%d", name, r)},
+			}
+			if same {
+				mats[r].Material = shared
 			}
 		}
 		m = m.SetMaterials(mats)
